@@ -154,7 +154,7 @@ async def history(acc, clock, rnd, cid):
         for step in range(nsteps):
             st = ep.connection_state
             acts = ["send_app", "send_app", "send_app_stale34", "send_app_dupflag_n", "send_hb", "send_tr", "send_test_req", "send_rr", "send_logon", "send_logout",
-                    "send_seqreset", "send_seqreset_renumber", "send_unrepresentable"]
+                    "send_seqreset", "send_seqreset_renumber", "send_unrepresentable", "send_unencodable_text", "send_journal_refuses"]
             if not connected:
                 acts += ["attach"] * 6
             else:
@@ -205,12 +205,31 @@ async def history(acc, clock, rnd, cid):
                      # a decoded message relayed to this session that carries the decoder's repeated-tag marker: the encoder refuses it
                      # (C02); the refusal must not cost a number, or the next accepted message is not "one greater than the previous"
                      "send_unrepresentable": lambda: unrepresentable(),
+                     # text that cannot be written as UTF-8 (a lone surrogate, as bytes.decode(errors="surrogateescape") produces): refused
+                     "send_unencodable_text": lambda: FIXMessage("D", {11: f"u{step}", 55: "X", 58: "caf\udce9"}),
+                     # the journal refuses the row (disk full, locked by another process): nothing is sent, no number is spent
+                     "send_journal_refuses": lambda: FIXMessage("D", {11: f"jr{step}", 55: "X"}),
                      "send_test_req": None}[a]
+                undo_journal = None
+                if a == "send_journal_refuses":
+                    import sqlite3
+                    real_persist = j.persist_msg
+
+                    def refusing_persist(*aa, **kk):
+                        raise sqlite3.OperationalError("database or disk is full")
+                    j.persist_msg = refusing_persist
+
+                    def undo_journal():
+                        del j.persist_msg
                 try:
                     if a == "send_test_req":
                         await ep.send_test_req()
                     else:
-                        await ep.send_msg(m())
+                        try:
+                            await ep.send_msg(m())
+                        finally:
+                            if undo_journal is not None:
+                                undo_journal()
                     accepted += 1
                     trace[-1] += ":ok"
                     if a == "send_seqreset_renumber":
@@ -236,7 +255,7 @@ async def history(acc, clock, rnd, cid):
                         return trace, refused, accepted
                     continue
                 except Exception as e:
-                    if a == "send_unrepresentable":
+                    if a in ("send_unrepresentable", "send_unencodable_text", "send_journal_refuses"):
                         refused += 1
                         trace[-1] += f":refused-by-encoder:{type(e).__name__}"
                         acc.oracle("refused-send-unchanged")
